@@ -69,6 +69,8 @@ def run(ctx):
     # arguments that pass validation must still be inside the range the proof code can serve
     from . import c11 as _c11
     ctx.rule('C16.RANGE', lambda: _c11.rule_range(ctx), 4)
+    from . import c19 as _c19p
+    ctx.rule('C16.PORT', lambda: _c19p.rule_port(ctx), 2)
     from .unbound import rule_unbound
     ctx.rule('C16.UNBOUND', lambda: rule_unbound(ctx, 'C16.UNBOUND', ('sess', 'util')), 50)
 
